@@ -273,7 +273,16 @@ func ruleExportOrder(r *Run) {
 						known = true
 					}
 				}
-				if !known {
+				// only the traversal itself: a method that walks Body.Elements
+				walks := false
+				allInstrs(g, func(in2 ssa.Instruction) {
+					if ia, ok := in2.(*ssa.IndexAddr); ok {
+						if ch, _ := addrChain(ia.X); len(ch) > 0 && fieldIs(p, ch[len(ch)-1], pkgDoc, "Body", "Elements") {
+							walks = true
+						}
+					}
+				})
+				if !known && walks {
 					group = append(group, g)
 				}
 			}
@@ -291,6 +300,19 @@ func ruleExportOrder(r *Run) {
 		}
 		if takesElem && g != fn {
 			continue // an element writer, not the traversal
+		}
+		if g != fn {
+			walks := false
+			allInstrs(g, func(in2 ssa.Instruction) {
+				if ia, ok := in2.(*ssa.IndexAddr); ok {
+					if ch, _ := addrChain(ia.X); len(ch) > 0 && fieldIs(p, ch[len(ch)-1], pkgDoc, "Body", "Elements") {
+						walks = true
+					}
+				}
+			})
+			if !walks {
+				continue // a helper of the element writers, not the traversal
+			}
 		}
 		for _, l := range naturalLoops(g) {
 			floops = append(floops, floop{g, l})
